@@ -20,11 +20,11 @@ Definition rule_refines_simple :=
   C02_cond.rule_refines_simple_from
     (fun o ic y b => identifier_refines_simple o ic y b).
 
-Lemma refuted_D27 :
+Lemma fixed_D27 :
   let o0 := {| re_valid := fun _ _ => true; re_match := fun _ _ _ => false; f64_parse := fun _ => None;
                f64_show := fun _ => []; uni_alnum := fun _ => false; uni_num := fun _ => false |} in
   let k := [115; 116; 114; 40; 102; 41]%N in
   exists e, parse_entry o0 false (YStr k) YNull None [] = Ok e /\
-            solve_body o0 e (pure_doc (fun _ => None)) = Ok F /\
+            solve_body o0 e (pure_doc (fun _ => None)) = Ok M /\
             sem_entry_scalar o0 false KStr [102%N] YNull (fun _ => None) = M.
 Proof. cbv zeta. eexists. repeat split; vm_compute; reflexivity. Qed.
